@@ -109,7 +109,7 @@ def bind_params(ex: Exec, C: FnContract, node) -> None:
             v.loc = ('local', nm)
         ex.assume_type(v)
         if ty.kind == 'obj' and ty.cls not in ('any', 'NoneType', 'optint', 'optreal', 'optbool', 'str'):
-            ex.assume(z3.Or(v.term == NONE, z3.Select(ex.heap_arr('$alloc'), v.term)))
+            ex.assume(z3.Or(v.term == NONE, ex.is_alloc(v.term)))
         ex.st.env[nm] = v
     for special in (a.vararg, a.kwarg):
         if special is not None and special.arg not in C.params:
@@ -128,8 +128,11 @@ def run_path(ex: Exec, C: FnContract, node, res: FnResult):
     ex.cur_line = node.lineno
     try:
         bind_params(ex, C, node)
+        for g in ex.spec.ghosts:
+            ex.lookup(g)
         ex.entry = st.snapshot()
         ex.seg = ex.entry
+        ex.frame_base = {'heap': {}, 'ghost': {}}
         env0 = dict(st.env)
         for cl in C.requires:
             ex.assume(ex.spec_bool(cl.expr, env0))
@@ -196,33 +199,6 @@ def check_exit(ex: Exec, C: FnContract, env0, outcome, result: V, exc, res: FnRe
     if I is not None and C.suspends:
         for cl in I.inv:
             ex.oblige('inv@exit', cl.label, ex.spec_bool(cl.expr, env), cl.tags)
-    # frame: every heap field the path touched must be declared, for objects that existed at entry
-    mods: dict[str, list] = {}
-    for f, tgt in C.modifies:
-        mods.setdefault(f, []).append(tgt)
-    alloc0 = ex.entry['heap'].get('$alloc')
-    for f in sorted(st.heap):
-        if f == '$alloc' or f.startswith('$'):
-            continue
-        a0 = ex.entry['heap'].get(f)
-        a1 = st.heap[f]
-        if a0 is None or a0.eq(a1):
-            continue
-        tg = mods.get(f, [])
-        if '*' in tg:
-            continue
-        r = z3.Const(fresh_name('frame_r'), Ref)
-        ante = [z3.Select(alloc0, r)] if alloc0 is not None else []
-        for t in tg:
-            ante.append(r != ex.spec_eval(t, env).term)
-        ex.oblige('frame', f, z3.Implies(z3.And(*ante) if ante else z3.BoolVal(True), z3.Select(a1, r) == z3.Select(a0, r)), ('frame',))
-    for g in sorted(st.ghost):
-        if g in C.ghost_modifies:
-            continue
-        g0 = ex.entry['ghost'].get(g)
-        g1 = st.ghost[g]
-        if g0 is None or g0.term is g1.term or (z3.is_expr(g0.term) and g0.term.eq(g1.term)):
-            continue
-        ex.oblige('frame', 'ghost:' + g, ex.eq(g0, g1), ('frame',))
+    ex.check_frame('exit', env)
     if ex.ch.fresh_part and len(res.canaries) < 3:
         res.canaries.append(Obligation('%s/canary:%s' % (C.key, outcome), st.pc, z3.BoolVal(False), ('canary',), {'trace': list(st.trace)}))
